@@ -171,9 +171,18 @@ func (fr *frame) callFunc(x ssa.Instruction, callee *ssa.Function, args, free []
 		fr.lockOp(full, args, st, x)
 		return &Val{Ty: callee.Signature.Results()}
 	}
-	if strings.Contains(full, "syncutil.Pool") && (strings.HasSuffix(callee.Name(), "Get") || strings.HasSuffix(callee.Name(), "Put")) {
+	poolOp := ""
+	if strings.Contains(full, "syncutil.Pool") {
+		switch {
+		case strings.HasSuffix(full, ".Get"):
+			poolOp = "Get"
+		case strings.HasSuffix(full, ".Put"):
+			poolOp = "Put"
+		}
+	}
+	if poolOp != "" {
 		// pooled objects: exclusively owned between Get and Put (ghost ownership, see locks.go)
-		if strings.HasSuffix(callee.Name(), "Put") && len(args) >= 2 {
+		if poolOp == "Put" && len(args) >= 2 {
 			fr.poolPut(args[1], st, x)
 		}
 		var v *Val
@@ -182,7 +191,7 @@ func (fr *frame) callFunc(x ssa.Instruction, callee *ssa.Function, args, free []
 		} else {
 			v = fr.havocCall(x, callee.Signature, "call of "+relName(callee), st, name)
 		}
-		if strings.HasSuffix(callee.Name(), "Get") {
+		if poolOp == "Get" {
 			fr.poolGet(v, st)
 		}
 		return v
